@@ -51,13 +51,22 @@ def renderM (ps : InputM) : Str := ps.flatMap fun nv => nv.1 ++ ':' :: ' ' :: nv
 def nameOk (n : Str) : Bool :=
   headP isAsciiAlpha n && n.all fun c => isAsciiAlnum c || c = '-'
 
+/-- a continuation line as written: indented by a space or a tab, no line boundary inside -/
+def contOk (l : Str) : Bool := headP (fun c => c = ' ' || c = '\t') l && l.all fun c => !isBoundary c
+
+/-- a value: a non-empty first line that starts with a non-blank character, then any number of continuation
+lines; the last character is not blank (the value is spelled trimmed) -/
 def valueOk (v : Str) : Bool :=
-  !v.isEmpty && headP (fun c => !isSpace c) v && lastP (fun c => !isSpace c) v && v.all fun c => !isBoundary c
+  match splitChar '\n' v with
+  | first :: conts =>
+    !first.isEmpty && headP (fun c => !isSpace c) first && (first.all fun c => !isBoundary c) && conts.all contOk &&
+    lastP (fun c => !isSpace c) v
+  | [] => false
 
 def wfM (ps : InputM) : Bool := !ps.isEmpty && ps.all fun nv => nameOk nv.1 && valueOk nv.2
 
-/-- each lower-cased name, in order of first occurrence, maps to its distinct values in order of
-first appearance, newline-separated -/
+/-- each lower-cased name, in order of first occurrence, maps to its distinct values (whole values: a multi-line
+value is one value) in order of first appearance, newline-separated -/
 def expectedM (ps : InputM) : Dict :=
   let names := ps.foldl (fun acc nv => if acc.contains (lowerAscii nv.1) then acc else acc ++ [lowerAscii nv.1]) []
   names.map fun n =>
